@@ -227,6 +227,40 @@ def run(facts, res):
         if not (d_ok and i_ok):
             res.violation("E2", "applier-ranges", "apply_diff_patch: delete range (start op[2], end op[2]+op[1]): %s; insert at op[1] of op[2]: %s" % (d_ok, i_ok), a.loc())
 
+        # E2e: the edit script is computed over the elements themselves: the two sequences handed to the diff routine are the two
+        # parameters of make_diff_patch, viewed but not re-encoded. A diff over derived keys (interned tokens, printed forms, hashes) is
+        # an edit script between the *key* sequences; wherever the keying is not injective (the string "1" and the number 1) the
+        # script leaves a stale element in place and the stored array differs from the submitted one.
+        VIEW = {"deref", "as_ref", "as_slice", "borrow", "iter", "as_ptr", "index", "to_vec", "clone", "into", "from"}
+        n2e = 0
+        for s_ in _is16(facts, w, lambda t: t.callee is not None and t.callee.name.startswith("myers") and len(t.args) >= 2):
+            n2e += 1
+            which = []
+            for i_ in (0, 1):
+                x = s_.args[i_]
+                hops = 0
+                ok_ = None
+                while hops < 40 and ok_ is None:
+                    hops += 1
+                    if x[0] in ("ref", "deref", "cast"):
+                        x = x[1]
+                    elif x[0] == "var":
+                        x = x[3]
+                    elif x[0] == "call" and callee_name(x) in VIEW and x[2]:
+                        x = x[2][0]
+                    elif x[0] == "param":
+                        ok_ = x[1]
+                    else:
+                        ok_ = 0
+                which.append(ok_ or 0)
+            ok = which == [1, 2]
+            res.instance("E2", "the diff routine receives the old and the new sequence themselves (parameters %s): %s" % (which, ok), s_.loc())
+            if not ok:
+                res.violation("E2", "diff-maker|diff-not-over-the-elements",
+                              "make_diff_patch hands the diff routine sequences derived from its inputs (%s) instead of (old, new) themselves: the edit script "
+                              "describes the derived sequences, and elements the derivation identifies are silently not replaced" % which, s_.loc())
+        res.floor("E2", "diff routine call sites in make_diff_patch", n2e, 1)
+
     # ------------------------------------------------------------------ E3
     rb = R.body("rebuilder")
     if rb is None:
